@@ -53,6 +53,38 @@ CLAIMS["C18"] = (
     "parser are not encoded) - they accept zero durations, recorded as open known finding K1.",
     "DESIGN.md §4 C18")
 
+CLAIMS["C09"] = (
+    "Solver verdict that every datagram/stream the client emits against the modelled network is the protocol's request "
+    "and goes to (ip, port or the default port): challenge echo for all 2^32 Valve challenges (0-2 rounds, info/players/"
+    "rules) and for GameSpy 3 decimal challenges of fixed digit counts, the Java handshake framing for every port, the "
+    "first request of each protocol and of games of the definitions table (regenerated from definitions.rs each run).",
+    "Trusted: hook H3 (send log of the net model), H5 unit ports, protocol constants written from the specifications in "
+    "harness/src/entries.rs. Outside: Eco/HTTP, the auto-detecting minecraft entry through the generic path, Java "
+    "protocol versions other than the listed ones.",
+    "DESIGN.md §4 C09")
+CLAIMS["C11"] = (
+    "Solver verdict, over all server app ids and expected ids, that Skip never requests a section and leaves it absent, "
+    "Try + failure leaves the rest intact, Enforce + failure fails the query with that failure's kind, and BadGame <=> "
+    "checking on and the server id is none of the expected ids - for all 9 Valve toggle pairs x 4 section outcomes.",
+    "Trusted: hooks H3/H5. Outside: Unreal 2 toggles (encoding_rs not encodable within reach), sections with players/rules "
+    "(C02), retries.",
+    "DESIGN.md §4 C11")
+CLAIMS["C02"] = (
+    "Solver verdict that the real Valve query code decodes a reference-encoded A2S_INFO / A2S_PLAYER / A2S_RULES reply "
+    "field for field (all 32 extra-data layouts, Source / obsolete GoldSrc / The Ship, split transport), for every value "
+    "of every numeric field, and that the per-game response carries the same values. Round-trip against an independent "
+    "encoder with symbolic field values is what exposes swapped, mis-sized or mis-ordered fields.",
+    "Trusted: hooks H3-H5, UTF-8 DFA stub, the reference encoder. Strings are concrete (distinct) - symbolic string bytes "
+    "are decided at decoder level in C17. bzip2 + CRC32 not encoded.",
+    "DESIGN.md §4 C02")
+
+CLAIMS["C07"] = (
+    "Solver verdict that the FFOW, Savage 2, JC2M, Mindustry, The Ship and Battalion 1944 queries return every field of a "
+    "reference-encoded reply in the correspondingly named response field for every value of the numeric fields, with the "
+    "documented overrides, and that Eco's From<Root> maps every field.",
+    "Trusted: hooks H3-H5, UTF-8 DFA stub, reference encoders. NOT claimed: Eco's HTTP/JSON transport (ureq + serde_json).",
+    "DESIGN.md §4 C07")
+
 ALL = ["C%02d" % i for i in range(1, 21)]
 
 DEFAULT_NA = "check not built yet in this revision (work in progress; see DESIGN.md for the plan)"
